@@ -140,9 +140,29 @@ pub fn run(ctx: &mut Ctx) {
     ctx.rule("prefixes: every truncation point of the seed archives and repository fixtures; subst: every one of the 255 substitute values at every byte outside the entry data of the seeds (headers, central directory, end records); havoc: random multi-site edits, cuts and duplicated chunks; hostile: structure-aware specs whose headers lie (counts/sizes/offsets at 0, 1, 2^16, 2^32, 2^63, 2^64-1 and +-1, AES extra records with and without the encryption flag, method 99 anywhere, encrypted entries shorter than their crypto header), built by the independent builder then field-edited. Each input goes through ZipArchive::new + every accessor + by_index/by_index_raw/by_index_decrypt/by_name(_decrypt) + capped reads, read_zipfile_from_stream with none/partial/full consumption, ZipStreamReader::visit, and ZipWriter::new_append followed by finish and by drop. Oracle: no panic/abort; I/O calls while opening <= 16*len+1e6; peak heap while opening <= 512*len+2MiB. Non-trivial = accepted by at least one opener.");
     ctx.assume("reads are capped at 1 MiB of output per entry so decompression bombs cost bounded work; memory is measured on the Rust heap of the calling thread around ZipArchive::new / new_append only");
     ctx.assume("a loop that never touches the stream would only trip the supervisor's watchdog (exit 2)");
+    ctx.assume("known finding bzip2-c-decoder-uninitialised-read (libbz2 reading uninitialised decoder tables on crafted Bzip2 entries; crashes or not depending on heap garbage): a worker killed by a fatal signal raised inside libbz2 is restarted with that case left out (coverage.excluded_by_known_finding counts them); the stored reproducer is re-run with MALLOC_PERTURB_=1 in a child process on every run");
     if let Some(c) = ctx.replay_case("fuzz_raw") {
         let bytes = crate::util::unhex(c["bytes"].as_str().unwrap_or("")).unwrap_or_default();
         ctx.replay_verdict = Some(Verdict::from_result(robust::exercise(&bytes).map(|_| ())));
+        return;
+    }
+    if let Some(c) = ctx.replay_case("crash_raw") {
+        // A stored input that kills the process: run it in a child of this binary (`zv rawexercise`)
+        // with the recorded MALLOC_PERTURB_ value and report what happens to the child.
+        let root = ctx.root.clone();
+        let tmp = root.join("replays").join("C05").join(format!(".crash-raw-{}.json", std::process::id()));
+        let _ = std::fs::create_dir_all(tmp.parent().unwrap());
+        let _ = std::fs::write(&tmp, serde_json::to_vec(&serde_json::json!({"case": c})).unwrap());
+        let perturb = c["perturb"].as_u64().unwrap_or(1).to_string();
+        let st = std::process::Command::new(std::env::current_exe().expect("exe")).arg("rawexercise").arg(&tmp).env("MALLOC_PERTURB_", &perturb).stdout(std::process::Stdio::null()).stderr(std::process::Stdio::null()).status();
+        let _ = std::fs::remove_file(&tmp);
+        use std::os::unix::process::ExitStatusExt;
+        ctx.replay_verdict = Some(match st {
+            Ok(s) if s.signal().is_some() => Verdict::Known("bzip2-c-decoder-uninitialised-read", format!("child process running the stored input with MALLOC_PERTURB_={perturb} died by signal {}", s.signal().unwrap())),
+            Ok(s) if s.code() == Some(0) => Verdict::Pass,
+            Ok(s) => Verdict::Fail(format!("stored crash input now fails differently (child exit status {:?})", s.code())),
+            Err(e) => Verdict::Fail(format!("harness: cannot spawn child: {e}")),
+        });
         return;
     }
     let seeds = seeds::small_seeds();
@@ -224,6 +244,9 @@ pub fn run(ctx: &mut Ctx) {
                 let k = (c as usize * b.len()) >> 16;
                 b.truncate(k);
                 info.label("cut");
+            }
+            if let Ok(path) = std::env::var("ZV_DUMP_INPUT") {
+                let _ = std::fs::write(path, &b);
             }
             verdict(robust::exercise(&b), info)
         },
